@@ -14,7 +14,10 @@ case "${1:-}" in
     sed "s#@REPO@#$REPO#" harness/Cargo.toml.in > harness/Cargo.toml
     [ -f harness/Cargo.lock ] || cp "$REPO/Cargo.lock" harness/Cargo.lock
     (cd harness && cargo build --release --offline)
-    (cd harness && CARGO_TARGET_DIR=target-feat cargo build --release --offline --features deadlock,metrics,testutils)
+    (cd harness && CARGO_TARGET_DIR=target-feat cargo build --release --offline --features deadlock,metrics,testutils,rstracing)
+    sed "s#@REPO@#$REPO#" macrocorpus/Cargo.toml.in > macrocorpus/Cargo.toml
+    [ -f macrocorpus/Cargo.lock ] || cp "$REPO/Cargo.lock" macrocorpus/Cargo.lock
+    (cd macrocorpus && cargo build --offline --lib)
     ;;
   quick|thorough)
     exec python3 tools/check.py "$1" "$2"
